@@ -54,6 +54,7 @@ func runC19(p *eng.Prog, r *eng.Report, tier string) {
 	c.r.Floor("C19.44", "Handle* methods of the module", handlersBuildTheirPayloads(c, "C19.44"), 20)
 	c.r.Floor("C19.45", "tests of a local error in iterator Next methods", iteratorsKeepTheirErrors(c, "C19.45"), 1)
 	c.r.Floor("C19.46", "switches over an enumeration in its own methods", enumSwitchesComplete(c, "C19.46"), 1)
+	c.r.Floor("C19.47", "struct fields with an xml tag", noInnerXMLTargets(c, "C19.47"), 100)
 	nf := 0
 	nBelief := 0
 	defer func() { c.r.Floor("C19.1", "unreachable-panic beliefs checked against a library callee", nBelief, 1) }()
